@@ -20,22 +20,24 @@ def _strip_docstrings(node):
     return node
 
 def _find(tree, name):
+    """every definition of `name` (a property has a getter and a setter of the same name): list of nodes, [] if absent"""
     parts = name.split(".")
-    scope = tree.body
-    node = None
+    scopes = [tree.body]
+    nodes = []
     for i, p in enumerate(parts):
-        node = None
-        for n in scope:
-            if isinstance(n, (ast.FunctionDef, ast.AsyncFunctionDef, ast.ClassDef)) and n.name == p:
-                node = n
-            elif isinstance(n, (ast.Assign, ast.AnnAssign)) and i == len(parts) - 1:
-                tg = n.targets if isinstance(n, ast.Assign) else [n.target]
-                if any(isinstance(t, ast.Name) and t.id == p for t in tg):
-                    node = n
-        if node is None:
-            return None
-        scope = getattr(node, "body", [])
-    return node
+        nodes = []
+        for scope in scopes:
+            for n in scope:
+                if isinstance(n, (ast.FunctionDef, ast.AsyncFunctionDef, ast.ClassDef)) and n.name == p:
+                    nodes.append(n)
+                elif isinstance(n, (ast.Assign, ast.AnnAssign)) and i == len(parts) - 1:
+                    tg = n.targets if isinstance(n, ast.Assign) else [n.target]
+                    if any(isinstance(t, ast.Name) and t.id == p for t in tg):
+                        nodes.append(n)
+        if not nodes:
+            return []
+        scopes = [getattr(n, "body", []) for n in nodes]
+    return nodes
 
 def item_hash(repo, file, name):
     path = os.path.join(repo, file)
@@ -43,10 +45,11 @@ def item_hash(repo, file, name):
         tree = ast.parse(open(path).read())
     except (OSError, SyntaxError):
         return None
-    node = _find(tree, name)
-    if node is None:
+    nodes = _find(tree, name)
+    if not nodes:
         return None
-    return hashlib.sha256(ast.dump(_strip_docstrings(node), annotate_fields=True, include_attributes=False).encode()).hexdigest()[:24]
+    text = "\n".join(ast.dump(_strip_docstrings(n), annotate_fields=True, include_attributes=False) for n in nodes)
+    return hashlib.sha256(text.encode()).hexdigest()[:24]
 
 def pin_file(pid):
     return os.path.join(ROOT, "pins", pid + ".json")
